@@ -1,5 +1,7 @@
 """Pool: late module 1 - registered in sys.modules only by an import event."""
 from dataclasses import dataclass, field
+
+from sim.pool.base import StableHashMeta
 from typing import Optional
 
 from sim.pool.m_xsi import Animal
@@ -17,7 +19,7 @@ class Bird(Animal):
 
 
 @dataclass
-class LateRoot:
+class LateRoot(metaclass=StableHashMeta):
     class Meta:
         name = "lateRoot"
         namespace = "urn:late1"
